@@ -15,7 +15,7 @@ type entT struct {
 }
 
 type pools struct {
-	ints, structs, mvals, funcs, funcps, meths []string
+	ints, structs, mvals, funcs, funcps, meths, maps []string
 	multis                                     map[string]bool // names declared by `var a, b = f()`
 }
 
@@ -144,7 +144,7 @@ func genCase(r *rand.Rand, profile, order string, cycle bool, size int, mode str
 	p := &pools{multis: map[string]bool{}}
 	pure := map[string]bool{}
 	var ents []entT
-	nInt, nZ, nT, nMv, nF, nG, nM, nX, nP, nU := 0, 0, 0, 0, 0, 0, 0, 0, 0, 0
+	nInt, nZ, nT, nMv, nF, nG, nM, nX, nP, nU, nMp, nV := 0, 0, 0, 0, 0, 0, 0, 0, 0, 0, 0, 0
 	letter := func() string {
 		s := string(rune('a' + nInt%26))
 		if nInt >= 26 {
@@ -168,6 +168,24 @@ func genCase(r *rand.Rand, profile, order string, cycle bool, size int, mode str
 	}
 	for len(ents) < size {
 		k := r.Intn(100)
+		if profile == "all" && r.Intn(100) < 9 {
+			// package-level comma-ok declaration (2d7bcd6) and the map it reads
+			if len(p.maps) == 0 || r.Intn(4) == 0 {
+				n := fmt.Sprintf("mp%d", nMp)
+				nMp++
+				v := &varT{Kind: "mapvar", Names: []string{n}, Args: [][]argT{genArgs(r, p, profile, 2)}}
+				ents = append(ents, entT{kind: "mapvar", v: v})
+				p.maps = append(p.maps, n)
+			}
+			if r.Intn(4) != 0 {
+				a, b := fmt.Sprintf("v%d", nV), fmt.Sprintf("ok%d", nV)
+				nV++
+				v := &varT{Kind: "commaok", Names: []string{a, b}, Recv: pickS(r, p.maps), Args: [][]argT{genArgs(r, p, profile, 2)}}
+				ents = append(ents, entT{kind: "commaok", v: v})
+				p.ints = append(p.ints, a)
+			}
+			continue
+		}
 		if profile == "names" {
 			// ints 45, functions 10, multi-value 22, no value 23 (mostly two names)
 			switch {
@@ -448,6 +466,13 @@ func genNames(r *rand.Rand, mode string) caseT {
 // genProg wraps a main package with 1–4 imported packages forming a DAG; every imported package is
 // a small "direct" package plus `var X = lg("<path>.X", own variables…, X of its imports…)`.
 func genProg(r *rand.Rand, main caseT) caseT {
+	for k := range main.Vars {
+		if main.operandLater(k) {
+			// gta panics at this declaration (F15-9); which imports have been processed by then
+			// depends on the file order, which the model does not describe
+			return main
+		}
+	}
 	// (before the repair of F15-7 a multi-value declaration whose callee is declared later stopped
 	// gta, and the generator kept that shape out of programs with several packages)
 	names := []string{"liba", "libb", "libc", "libd", "libe"}
